@@ -235,7 +235,7 @@ def r_ctx(c):
                         m.loc(ci.module, call),
                         f"recursion passes `{a1}` as context (neither the incoming "
                         "context nor None)")
-    if n < 10:
+    if n < 7:
         raise AnalysisError(f"only {n} context-taking handlers found")
     # context dataclass: every field takes part in ==/hash (it is part of the cache key)
     cc = m.cls(EDL + "._EinsumDistributiveLawMapperContext")
@@ -407,8 +407,8 @@ for $i, $d in enumerate($descrs):
 SPEC = Spec(
     prop="C06",
     rules=[r_law, r_branch, r_ctx, r_wrap, r_squeeze],
-    floors={"R06-LAW": 140, "R06-BRANCH": 10, "R06-CTX": 30, "R06-WRAP": 12,
-            "R06-SQUEEZE": 6},
+    floors={"R06-LAW": 101, "R06-BRANCH": 7, "R06-CTX": 30, "R06-WRAP": 9,
+            "R06-SQUEEZE": 4},
     explanation=(
         "R06-LAW: the AST of _can_hlo_be_distributed is evaluated by a finite "
         "abstract interpreter over BinaryOpType (members read from the enum) x "
